@@ -83,7 +83,7 @@ def stopping_games(draw, min_inner=1, max_inner=8, dyadic=None, rewards=REWARD_P
         if pl == PR:
             succ = [draw(st.sampled_from(higher))]
             for _ in range(k - 1):
-                if not acyclic and draw(st.booleans()):
+                if not acyclic and draw(st.integers(0, 3)):
                     succ.append(draw(st.sampled_from(anywhere)))
                 else:
                     succ.append(draw(st.sampled_from(higher)))
